@@ -246,16 +246,21 @@ def run(tier: str, seed: int) -> CompResult:
     # tx expansion, auto count
     txcases = [["popen"], ["3*popen"], ["2*popen//chdir=a", "popen"], ["0*popen"], [], ["-1*popen"], ["*popen"], ["x*popen"],
                ["1_0*popen//id=q"], [" 2 *popen"], ["2*3*popen"], ["ssh=h//python=py3"], ["+2*popen"]]
-    for _ in range(40 if tier == "quick" else 400):
+    structured: dict[int, list[str]] = {}
+    for _ in range(60 if tier == "quick" else 500):
+        k = rng.randrange(1, 5)
+        parts = [(rng.choice([None, None, 2, 3, 10, 0, 1]), rng.choice(["popen", "popen//chdir=zz", "ssh=u@h", "socket=1.2.3.4:8888"])) for _ in range(k)]
+        structured[len(txcases)] = [sp for mult, sp in parts for _ in range(1 if mult is None else mult)]
+        txcases.append([(f"{mult}*" if mult is not None else "") + sp for mult, sp in parts])
+    for _ in range(20 if tier == "quick" else 200):
         k = rng.randrange(4)
-        txcases.append([rng.choice(["", "2*", "3*", "10*", "a*", "0*", "1*"]) + rng.choice(["popen", "popen//chdir=zz", "ssh=u@h", "socket=1.2.3.4:8888"])
-                        for _ in range(k)])
+        txcases.append([rng.choice(["", "a*", "x3*", "*"]) + rng.choice(["popen", "ssh=u@h"]) for _ in range(k)])
     from types import SimpleNamespace
 
     import pytest
     from xdist.workermanage import parse_tx_spec_config
 
-    for tx in txcases:
+    for ti, tx in enumerate(txcases):
         line = f"tx {show_str_list(tx)}"
         try:
             r = parse_tx_spec_config(SimpleNamespace(getvalue=lambda name, tx=tx: list(tx)))  # type: ignore[arg-type]
@@ -265,6 +270,10 @@ def run(tier: str, seed: int) -> CompResult:
         lines.append(line)
         impl.append(out)
         res.hit("tx")
+        if ti in structured:
+            want = f"ok {show_str_list(structured[ti])}" if structured[ti] else "UsageError"
+            if out != want:
+                res.violations.append(Violation("C13", "pure.options", f"--tx {tx} expands to {out}, documented: {want}", "tx-expansion-wrong", [line], {}))
         for t in tx:
             head, star, spec = t.partition("*")
             if star and head.isdigit() and "*" not in spec and len(tx) == 1:
